@@ -1,6 +1,6 @@
 From Coq Require Import ZArith List String.
 From DRX Require Import Py.PyBytes Py.Val.
-From DRX Require Model.ScoreIO Model.RiffIO.
+From DRX Require Model.ScoreIO Model.RiffIO Model.IndexIO.
 Import ListNotations.
 Open Scope string_scope.
 
@@ -12,7 +12,13 @@ Definition table : list (string * (val -> val)) := [
   ("find_riff", Model.RiffIO.run_find_riff);
   ("parse_mmap", Model.RiffIO.run_parse_mmap);
   ("parse_imap", Model.RiffIO.run_parse_imap);
-  ("enc_movie", Model.RiffIO.run_enc_movie)
+  ("enc_movie", Model.RiffIO.run_enc_movie);
+  ("parse_key", Model.IndexIO.run_parse_key);
+  ("parse_cas", Model.IndexIO.run_parse_cas);
+  ("parse_lctx", Model.IndexIO.run_parse_lctx);
+  ("parse_lnam", Model.IndexIO.run_parse_lnam);
+  ("parse_vwlb", Model.IndexIO.run_parse_vwlb);
+  ("parse_vwcf", Model.IndexIO.run_parse_vwcf)
 ].
 
 Fixpoint lookup (n : string) (t : list (string * (val -> val))) : option (val -> val) :=
